@@ -288,6 +288,15 @@ def main(tier: str, seed: int) -> int:
     for i, u in enumerate(UNITS):
         imm_jobs.append(job("C17/immut", CONTEXT + "\n" + u, [], [config(t, "auto", "auto", NOORC) for t in cfgs],
                             checks=["immut"], meta={"unit": i}))
+    # the statements of the normalisation grammar (C05) with all traits off and under default: preprocessing itself
+    # must not write through the shallow copies of the caller's statements
+    from vt.families import C05 as fam_c05  # pylint: disable=import-outside-toplevel
+
+    for kind, stm in fam_c05.statements(tier):
+        if quick and kind not in ("infsup", "count", "old", "chain"):
+            continue
+        imm_jobs.append(job("C17/immut", stm, [], [config([], "auto", "auto", NOORC), config(DEFAULT, "auto", "auto", NOORC)],
+                            checks=["immut"], meta={"c05": kind}))
     # family programs under their owning trait alone and under default (in-place edits of later stages show only when
     # no earlier stage has copied the statement)
     from vt.checks.C01 import slice_keep  # pylint: disable=import-outside-toplevel
